@@ -161,16 +161,19 @@ class ResourceTracker(_ResourceTracker):
                 # race condition that can make the child die before it
                 # registers signal handlers for SIGINT and SIGTERM. The mask is
                 # unregistered after spawning the child.
+                previous_mask = None
                 try:
                     if _HAVE_SIGMASK:
-                        signal.pthread_sigmask(
+                        previous_mask = signal.pthread_sigmask(
                             signal.SIG_BLOCK, _IGNORED_SIGNALS
                         )
                     pid = spawnv_passfds(exe, args, fds_to_pass)
                 finally:
-                    if _HAVE_SIGMASK:
+                    if previous_mask is not None:
+                        # Restore the mask of the caller: a signal it had
+                        # blocked itself must stay blocked.
                         signal.pthread_sigmask(
-                            signal.SIG_UNBLOCK, _IGNORED_SIGNALS
+                            signal.SIG_SETMASK, previous_mask
                         )
             except BaseException:
                 os.close(w)
